@@ -367,10 +367,9 @@ def body_cores(case):
         # the bound of the statement: best rank-r errors of the unfoldings for the REQUESTED ranks r (a result that is cut harder than
         # requested does not get a weaker bound)
         bound = tail_bound(spectra, caps)
-        if bound > 1e-6 * nx and not case.get('near_tie') and max(spec['rows']) < 48:
-            # (not in the near-tie class: there the ratio sits at 1 by construction, and Hypothesis' hill climbing on that plateau kept a
-            # shard busy for minutes without executing a single new case -- sweep seed 86)
-            target(err / bound, 'error / quasi-optimality bound')
+        # (no hypothesis.target() here: for order-2 trains and in the near-tie class the ratio error / bound sits at 1 by construction,
+        # and Hypothesis' hill climbing on that plateau kept a shard busy for minutes without executing a single new case -- sweep
+        # seeds 86 and 9x; the array entry points keep their target, which has no such plateau)
         # rounding: relative to the tensor, and -- the input being cores -- at the level of machine precision relative to the
         # representation (integer cores can cancel exactly: x = 0 or tiny although every core is O(1); the sweeps are backward
         # stable in the cores, not in the contracted value). For generic cores the second term is far below the first.
